@@ -209,6 +209,16 @@ func (r *c09Runner) Step(t []string, raw string) string {
 	if _, errOld := frontend.ParseCypher(older, q); errOld == nil {
 		accOld = 1
 	}
+	// ... and a default context that is used for a second parse must still filter (no state may make it laxer)
+	reused := frontend.DefaultCypherContext()
+	_, _ = frontend.ParseCypher(reused, "match (zz) delete zz")
+	accReuse := 0
+	if _, errReuse := frontend.ParseCypher(reused, q); errReuse == nil {
+		accReuse = 1
+	}
+	if accReuse == 1 && accOld == 0 {
+		accOld = 1 // reported through the same field: some non-fresh default context accepted the query
+	}
 	return fmt.Sprintf("acc=%d acc_old=%d syn=%d upd=%d proc=%d param=%d unsup=[%s] other=%d model_upd=%s dml=%s tree=%s",
 		acc, accOld, syn, upd, proc, param, strings.Join(unsup, ","), other, modelUpd, dml, tree)
 }
